@@ -440,6 +440,35 @@ def _conn_claim(pid, base_thms=()):
     return conn_prop(targets, _cb(list(base_thms)) + ths, CONN_PROFILES, assumptions=CONN_ASSUMPTIONS)
 
 
-for _pid in ("C14",):
+E2E_PROGRESS = [
+    {"name": "e2e-plain", "quick": 120, "thorough": 3000, "shards": {"quick": 1, "thorough": 8}},
+    {"name": "e2e-chaos", "quick": 120, "thorough": 3000, "shards": {"quick": 1, "thorough": 8}},
+]
+E2E_ENDING = [
+    {"name": "e2e-ending", "quick": 200, "thorough": 4000, "shards": {"quick": 1, "thorough": 8}},
+]
+# mutated histories (tools/connfuzz.py): hostile / odd peer frames, handle calls the generator never makes,
+# transport events, builder options.  Used where the monitors' verdict does not depend on a well-behaved peer.
+FUZZ = [
+    {"name": "conn-client", "label": "fuzz-conn-client", "quick": 80, "thorough": 1500, "shards": {"quick": 1, "thorough": 8},
+     "mutate": {"rate": 0.15, "kinds": ["peer", "user", "io", "cfg"]}},
+    {"name": "conn-server", "label": "fuzz-conn-server", "quick": 80, "thorough": 1500, "shards": {"quick": 1, "thorough": 8},
+     "mutate": {"rate": 0.15, "kinds": ["peer", "user", "io", "cfg"]}},
+    {"name": "conn-client-flow", "label": "fuzz-conn-client-flow", "quick": 60, "thorough": 1000, "shards": {"quick": 1, "thorough": 8},
+     "mutate": {"rate": 0.1, "kinds": ["peer", "user", "io"]}},
+]
+CONN_EXTRA = {
+    "C06": {"profiles": CONN_PROFILES + E2E_PROGRESS, "impl_only_prefixes": ("e2e_",), "impl_fail_tags": ("C06",),
+            "history_starts": ("cn_new", "e2e_run")},
+    "C07": {"profiles": CONN_PROFILES + E2E_ENDING, "impl_only_prefixes": ("e2e_",), "impl_fail_tags": ("C07",),
+            "history_starts": ("cn_new", "e2e_run")},
+    "C08": {"profiles": CONN_PROFILES + FUZZ},
+}
+CONN_BASE_THMS = {
+    "C17": [],
+}
+
+for _pid in ("C06", "C07", "C08", "C09", "C13", "C14", "C15", "C17", "C19"):
     if _load_theorems(_pid):
-        PROPS[_pid] = _conn_claim(_pid)
+        PROPS[_pid] = _conn_claim(_pid, CONN_BASE_THMS.get(_pid, ()))
+        PROPS[_pid].update(CONN_EXTRA.get(_pid, {}))
